@@ -242,9 +242,41 @@ PROPS["C20"] = dict(
         dict(module="MC_RamBundle", cfg="MC_RamBundle_thorough.cfg", tiers=("thorough",), workers=14, timeout=3400, heap="24g"),
     ],
     trace="Trace_C20",
+    selftest_min=0.8,   # a corrupted empty read at the end of the buffer is legitimately unobservable ("free")
     drive=dict(quick=dict(n=3000, size=4), thorough=dict(n=100000, size=8)),
     nontrivial=lambda e: len(e["args"]["bytes"]) >= 12,
     corrupt=_corrupt_c20,
     rule="cases: every model of MC_RamBundle (0..MaxSlots slots from {empty, NUL-only, 1 byte, non-UTF-8 with embedded NUL}, 2-3 startup codes, every physical order) laid out and left intact or hit by one corruption (truncation at every length; each header/table field set to 0, 1, len-12, len, len+1, 2^31-1, 2^31, 2^32-1, 2^32-sco, 2^32-sco-1; each magic byte changed); seeded random bundles (<= 50 modules) with random truncation / field / magic / byte corruptions; distinct = distinct byte string; non-trivial = at least a complete header",
     assumptions=COMMON_ASSUMPTIONS + ["harness built with feature ram_bundle; unbundle (file system) bundles are out of scope"],
 )
+
+def _corrupt_c12(e):
+    o = e["out"]
+    if e["op"] == "reader":
+        if o["err"]:
+            o["err"] = False
+        else:
+            o["delivered"] = o["delivered"] + [33]
+        return True
+    if e["op"] == "decode":
+        o["is_reader"] = not o["is_reader"]
+        return True
+    return False
+
+PROPS["C12"] = dict(
+    level="model_checking",
+    level_text="The streaming header reader is a TLA+ state machine whose state lives across reads; TLC explores EVERY chunking of every input of up to MaxLen byte classes (junk start bytes, CR, LF, other) and checks reader = declarative meaning = slice function (up to the kept newline), errors included. Every (input, chunking) is replayed on the real StripHeaderReader (hook H2) with a chunk-serving inner reader and the delivered bytes are compared with the machine run on the served chunk sizes; the same schedules in front of real documents compare decode vs decode_slice vs decode_data_url and is_sourcemap vs is_sourcemap_slice.",
+    level_note="serde_json and base64 are behind both paths and only their outcomes are compared",
+    technique="TLA+ reader state machine with nondeterministic short reads (HeaderReader.tla), TLC exhaustive over chunkings, trace validation replaying the recorded read schedule through the machine",
+    mc=[
+        dict(module="MC_HeaderReader", cfg="MC_HeaderReader_quick.cfg", tiers=("quick",), workers=8),
+        dict(module="MC_HeaderReader", cfg="MC_HeaderReader_thorough.cfg", tiers=("thorough",), workers=14, timeout=3400, heap="24g"),
+    ],
+    trace="Trace_C12",
+    drive=dict(quick=dict(n=1500, size=3), thorough=dict(n=40000, size=6)),
+    nontrivial=lambda e: (e["op"] == "reader" and len(e["args"]["input"]) >= 2) or (e["op"] == "decode" and len(e["args"]["bytes"]) > 10),
+    corrupt=_corrupt_c12,
+    rule="cases: every input of <= MaxLen (5 quick / 7 thorough) bytes over {')', \"'\", CR, LF, 'x'} x every chunking (TLC InnerRead with any k), each also in front of a real document; seeded: every junk start byte, garbage incl. non-ASCII, \\n / \\r\\n / bare \\r / \\r x \\n endings, header only, valid / truncated / corrupted regular, Hermes and index documents, chunk schedules with 1-byte reads and boundaries at/inside the header end; distinct = distinct (op, args); non-trivial = >= 2 input bytes (reader) or a document (decode)",
+    assumptions=COMMON_ASSUMPTIONS + ["hook H2 (cfg sourcemap_verif) re-exports StripHeaderReader/strip_junk_header; add-only"],
+)
+HOOK_COMMITS.append("95aad40")
